@@ -20,10 +20,12 @@ pub struct Counters {
 pub struct BulkheadAd {
     svc: Option<Handles<Bulkhead<Inner>>>,
     cnt: Arc<Counters>,
+    sib: Vec<Sibling>,
+    variant: String,
 }
 impl BulkheadAd {
-    pub fn new() -> Self {
-        BulkheadAd { svc: None, cnt: Arc::new(Counters::default()) }
+    pub fn new(variant: &str) -> Self {
+        BulkheadAd { svc: None, cnt: Arc::new(Counters::default()), sib: vec![], variant: variant.into() }
     }
 }
 fn map_res(r: Result<Resp, BulkheadServiceError<IErr>>) -> Out {
@@ -49,7 +51,9 @@ impl Adapter for BulkheadAd {
         // ctor 3: a preset customised afterwards (needs an explicit wait); pre: overridden earlier settings
         let ctor = if wait >= 0 && rng.pct(20) { 3 } else { rng.below(2) };
         let pre = if wait >= 0 { rng.below(3) } else { 0 };
-        json!({"hm": rng.below(4), "max": *rng.pick(maxes), "wait": wait, "ctor": ctor, "ord": rng.below(6), "pre": pre})
+        // lazy (variant "lazy", C01 only): the executor may let time pass although somebody is runnable
+        let lazy = if self.variant == "lazy" { 1 } else { 0 };
+        json!({"hm": rng.below(4), "max": *rng.pick(maxes), "wait": wait, "ctor": ctor, "ord": rng.below(6), "pre": pre, "sib": rng.below(2), "lazy": lazy})
     }
     fn build(&mut self, cfg: &Value, sim: &mut Sim) {
         let max = cfg["max"].as_u64().unwrap() as usize;
@@ -107,7 +111,19 @@ impl Adapter for BulkheadAd {
             }
         }
         let layer = b.build();
+        // cfg.sib = 1: two more bulkheads are built from the same layer value, one before (saturated with calls that
+        // never finish, one more queued) and one after the bulkhead under test: they share nothing with it
+        self.sib.clear();
+        let sib = cfg["sib"].as_u64().unwrap_or(0) == 1;
+        if sib {
+            let w2 = sibling_world();
+            self.sib.push(sibling_traffic(layer.layer(Inner::new(&w2)), w2, max + 3));
+        }
         self.svc = Some(Handles::new(layer.layer(Inner::new(&sim.w)), cfg["hm"].as_u64().unwrap_or(0)));
+        if sib {
+            let w3 = sibling_world();
+            self.sib.push(sibling_traffic(layer.layer(Inner::new(&w3)), w3, 1));
+        }
         let cnt2 = cnt.clone();
         sim.obs = Some(Box::new(move || {
             let mut m = Obj::new();
@@ -135,6 +151,11 @@ impl Adapter for BulkheadAd {
         p.steps = if size == Size::Quick { 50 } else { 200 };
         p.horizon = if size == Size::Quick { 30 } else { 120 };
         p.w_drop = 1 + rng.below(2) as u32;
+        p.lazy = cfg["lazy"].as_u64().unwrap_or(0) == 1;
+        if p.lazy {
+            p.w_adv = 6;
+            p.max_adv = 3;
+        }
         p
     }
     fn finale(&self, cfg: &Value) -> Vec<Value> {
@@ -150,5 +171,6 @@ impl Adapter for BulkheadAd {
     }
     fn teardown(&mut self) {
         self.svc = None;
+        self.sib.clear();
     }
 }
